@@ -69,7 +69,7 @@ class C08(Prop):
     ]
 
     def cases(self, rng, tier):
-        n = 700 if tier == "quick" else 60000
+        n = 700 if tier == "quick" else 9000
         for _ in range(n):
             r = rng.random()
             if r < 0.45:
